@@ -371,7 +371,13 @@ func driveC16(c *Ctx) {
 // slices with spare capacity (as append and json.Unmarshal produce), and nested schemas.
 func overrideSchema(name string, k int) *jsonschema.Schema {
 	title := fmt.Sprintf("override-%s-%d", name, k)
-	switch (len(name) + k) % 5 {
+	switch (len(name) + k) % 7 {
+	case 5:
+		// no "type" at all: nothing for a pointer's null to be added to
+		return &jsonschema.Schema{Title: title, Description: "typeless", MinLength: jsonschema.Ptr(1)}
+	case 6:
+		// already nullable
+		return &jsonschema.Schema{Types: []string{"null", "string"}, Title: title}
 	case 4:
 		// every subschema-holding keyword is populated: whatever copies an entry must copy all of them
 		var s jsonschema.Schema
